@@ -143,8 +143,16 @@ func matrixC04R(t *testing.T, r *ev.Run, R time.Duration) {
 	}
 	for _, nc := range matrixCfgs() {
 		for _, delta := range deltas {
-			for variant := 0; variant < 5; variant++ {
+			for variant := 0; variant < 7; variant++ {
 				if R == 0 && variant >= 2 {
+					continue
+				}
+				// variant 5: the long-lived session encrypts at short intervals (gaps well below one revoke-check interval)
+				// all the way across the system key's expiry: being used often must not postpone the re-check.
+				// variant 6: the same traffic, and exactly one transient read fault at the first encrypt after the system key
+				// has expired: the failed refresh must not make the stale entry look fresh.
+				dense := variant >= 5
+				if dense && (delta == 0 || delta > E/2) {
 					continue
 				}
 				coldToo := variant == 1
@@ -153,10 +161,12 @@ func matrixC04R(t *testing.T, r *ev.Run, R time.Duration) {
 				// it must not fall back to the cached intermediate key under the expired system key for longer than
 				// the property allows; the last encrypt runs without a fault and has to rotate
 				faultKind := 0
-				if variant >= 2 {
+				if variant >= 2 && variant <= 4 {
 					faultKind = variant - 1
 				}
-				name := fmt.Sprintf("c04/R=%s/%s/delta=%s/cold=%v/fault=%d", R, nc.name, delta, coldToo, faultKind)
+				singleFault := variant == 6
+				faultsArmed := 0
+				name := fmt.Sprintf("c04/R=%s/%s/delta=%s/cold=%v/fault=%d/dense=%v/single-fault=%v", R, nc.name, delta, coldToo, faultKind, dense, singleFault)
 				scripted(t, r, name, OC04|OC01, E, R, P, func(h *hist) {
 					time.Sleep(17 * time.Second) // not on a precision boundary
 					fa := h.factWith(nc.cfg)
@@ -181,12 +191,23 @@ func matrixC04R(t *testing.T, r *ev.Run, R time.Duration) {
 					for d := R / 2; d < E; d += warmStep { // keep the cache warm in between with irregular spacing
 						pts = append(pts, time.Now().Add(d))
 					}
+					if dense {
+						for at := skBorn.Add(E - R); at.Before(skBorn.Add(E + 2*R + R/2)); at = at.Add(R / 4) {
+							pts = append(pts, at.Add(13*time.Second))
+						}
+					}
 					sort.Slice(pts, func(i, j int) bool { return pts[i].Before(pts[j]) })
 					for _, pt := range pts {
 						if !pt.After(time.Now()) {
 							continue
 						}
 						sleepUntil(pt)
+						if singleFault && faultsArmed == 0 && pt.After(skBorn.Add(E)) {
+							h.p.FaultPct = -1
+							h.w.MS.ReadFaultIn = 1
+							faultsArmed++
+							r.Count("matrix_c04_faults_armed", 1)
+						}
 						if faultKind != 0 && pt.After(skBorn.Add(E)) && pt != pts[len(pts)-1] {
 							h.p.FaultPct = -1 // faults are placed by the scenario
 							switch faultKind {
